@@ -330,6 +330,8 @@ impl ISocket for ReqSocket {
     match command {
       Command::Stop => {
         self.ingress_engine.close();
+        // releases a send() that is waiting for the first peer to connect
+        self.load_balancer.deactivate();
         self.reply_available_notifier.notify_waiters();
       }
       _ => return Ok(false),
